@@ -73,5 +73,21 @@ PROPS['C06'] = dict(
     trusted=['blocking() is transcribed from the property statement (conditions 2, 3a, 3b, 3c)'],
     assumptions=['precondition ModelWF (sizes_ok, pairs_ok, two_sided) is established by the reader (C10); the printed stability_correct line additionally relies on C05 (LP) contracts',
                  'Python int is unbounded'])
+BF = 'brute_force_solver:Brute_force_solver.'
+PROPS['C07'] = dict(
+    title='Brute-force mode reports the exact optimum of every statistic it prints',
+    functions=[BF + 'moregre', BF + 'moregen', BF + 'get_matching_pairs', BF + 'is_valid', BF + 'run', BF + 'get_results',
+               MOD + '_get_max_rank', MOD + 'get_max_lec_upper_quota', MOD + '_get_cost', MOD + '_get_cost_sq', MOD + '_get_degree',
+               MOD + '_get_profile', MOD + '_get_lec_abs_diffs', MOD + '_get_max_lec_abs_diff', MOD + '_get_sum_lec_abs_diff'],
+    lemmas=[],
+    level='other',
+    level_text='proved for all instance sizes: comparators are the strict lexicographic orders (first / last difference); is_valid == Valid (incl. closure rule); get_matching_pairs; the statistic helpers == the measures; run never raises (every index, comparison and callee precondition), every profile has one entry per rank, optimal_size = -1 iff no enumerated assignment is valid and otherwise the maximum valid size; get_results prints Infeasible iff optimal_size = -1 and otherwise each stored optimum.  NOT proved (bounded stand-in only): that the stored cost / degree / profile / deviation values are the optima (fold invariants for those seven statistics are not written)',
+    harness=True, bound='<= 3 students x <= 3 projects x <= 3 lecturers, +-pc, exhaustive optimum by enumeration',
+    budget={'quick': 20, 'thorough': 240},
+    trusted=['T11 itertools.product enumerates every tuple over range(m) once (completeness of the enumeration is assumed; the fold is proved over whatever it enumerates)',
+             'T12 datetimes modelled as seconds; strftime opaque',
+             '_get_profile_string modelled as a pure text function of the profile'],
+    assumptions=['optimality of the seven secondary statistics is covered by the bounded stand-in only (labelled bounded)',
+                 'ModelWF precondition from the reader (C10)'])
 NOT_APPLICABLE = {}
 NOTES = 'see DESIGN.md; ./check Cxx --tier quick|thorough; exit 0 held / 1 VIOLATION / 2 undecided / 3 checker error'
